@@ -61,13 +61,18 @@ func (e *env) open(name string, reqTimeout time.Duration) *scen {
 
 // openR: with read=false the peer never reads from the connection (a stalled peer).
 func (e *env) openR(name string, reqTimeout time.Duration, read bool) *scen {
+	return e.openE(name, reqTimeout, read, 64)
+}
+
+// openE: errCap is the capacity of the error channel handed to the secure channel (it is never drained here).
+func (e *env) openE(name string, reqTimeout time.Duration, read bool, errCap int) *scen {
 	cli, srv, cleanup, err := h.SendLoopback()
 	if err != nil {
 		e.r.InfraError = "loopback: " + err.Error()
 		return nil
 	}
 	cfg := h.NoneConfig(1000, reqTimeout)
-	errch := make(chan error, 64)
+	errch := make(chan error, errCap)
 	sc, err := uasc.VerifOpenChannel(cli, cfg, false, chanID, initTok, 77, nil, nil, errch)
 	if err != nil {
 		cleanup()
@@ -320,6 +325,11 @@ func (e *env) random(seed uint64, idx int) {
 	for k := 0; k < n; k++ {
 		c := &call{k: k, plan: plans[rnd.Intn(len(plans))], timeout: time.Duration(30+rnd.Intn(70)) * time.Millisecond}
 		c.ctx, c.cancel = context.WithCancel(context.Background())
+		if (c.plan == "drop" || c.plan == "late" || c.plan == "edge") && rnd.Bool() {
+			// a context whose own deadline is far away must not replace the request timeout
+			c.ctx, c.cancel = context.WithTimeout(context.Background(), 45*time.Second)
+			e.r.Hit("ctx-with-far-deadline")
+		}
 		if c.plan == "precancel" {
 			c.cancel()
 		}
@@ -641,6 +651,148 @@ func (e *env) forcedLeak() {
 	}
 }
 
+// timeoutAfterLock: the response to the OpenSecureChannel request has been taken by the dispatcher, the gate is
+// already locked (dispatcher parked at dispatch.beforeSend) when open()'s timer fires. open() returns and its
+// deferred unlock opens the gate; the dispatcher hands the response to nobody and goes on. (This is NOT the
+// interleaving of the recorded wedge, where the timeout falls between popHandler and rcvLocker.lock().)
+func (e *env) timeoutAfterLock() {
+	s := e.open("timeout-after-gate-locked", 100*time.Millisecond)
+	if s == nil {
+		return
+	}
+	defer s.stop()
+	hold := s.ctl.BlockAt(func(ev *h.SendEv) bool { return ev.Name == "dispatch.beforeSend" })
+	opn := &call{k: 0, opn: true, timeout: 100 * time.Millisecond}
+	opn.ctx, opn.cancel = context.WithCancel(context.Background())
+	calls := []*call{opn}
+	e.runCall(s, opn)
+	select {
+	case q := <-s.reqs:
+		s.answer(q)
+	case <-time.After(60 * time.Second):
+		e.blocked(s.name + ": peer did not receive the OPN request")
+		return
+	}
+	if hold.WaitReached(60*time.Second) == nil {
+		e.blocked(s.name + ": dispatcher did not get to hand the OPN response over")
+		return
+	}
+	select {
+	case <-opn.done:
+	case <-time.After(hang):
+		e.r.Fail(s.name, "", "open() with a request timeout of 100 ms did not return while its response was withheld from it")
+		return
+	}
+	hold.Release()
+	probe := &call{k: 1, timeout: 10 * time.Second}
+	probe.ctx, probe.cancel = context.WithCancel(context.Background())
+	calls = append(calls, probe)
+	e.runCall(s, probe)
+	select {
+	case q := <-s.reqs:
+		s.answer(q)
+	case <-time.After(60 * time.Second):
+		e.blocked(s.name + ": peer did not receive the probe")
+		return
+	}
+	select {
+	case <-probe.done:
+	case <-time.After(hang):
+		probe.cancel()
+		<-probe.done
+	}
+	locked := s.sc.VerifRcvLocked()
+	evs := s.ctl.Events()
+	uasc.VerifSetHook(nil)
+	e.r.Hit("scenario:timeout-after-gate-locked")
+	if probe.err != nil || !probe.gotResp || locked {
+		e.r.Fail(s.name, "", fmt.Sprintf("open() timed out (%v) after the dispatcher had locked the receive gate for its response; afterwards rcvLocker locked=%v and a request answered at once returned %v", opn.err, locked, probe.err))
+	} else {
+		e.r.Hit("timeout-after-lock:gate-reopened")
+	}
+	labels := labelsOf(evs, calls, s.sc.VerifRcvLocker())
+	e.r.Count(s.name+" "+strings.Join(labels, ";"), true)
+	e.r.Sample(s.name + ": " + strings.Join(labels, "; "))
+	if e.d != nil && e.replay(s.name, 2, labels) {
+		if mw := e.d.Ask("wedged"); (mw == "true") != locked {
+			e.r.Disagree(s.name+" wedged", mw, fmt.Sprint(locked))
+		}
+	}
+}
+
+// faultsUndrained: the application does not drain the error channel (capacity 1). Several requests are answered with
+// ServiceFaults (each is also reported on the error channel); the dispatcher must not get stuck on that report:
+// every faulted call returns its fault and a later request is answered.
+func (e *env) faultsUndrained() {
+	s := e.openE("faults-with-undrained-error-channel", time.Second, true, 1)
+	if s == nil {
+		return
+	}
+	defer s.stop()
+	var calls []*call
+	for k := 0; k < 3; k++ {
+		c := &call{k: k, timeout: 20 * time.Second}
+		c.ctx, c.cancel = context.WithCancel(context.Background())
+		calls = append(calls, c)
+		e.runCall(s, c)
+	}
+	for got := 0; got < 3; got++ {
+		select {
+		case q := <-s.reqs:
+			s.mu.Lock()
+			h.PeerSendMSG(s.srv, chanID, s.tok, &s.seq, q.reqID, &ua.ServiceFault{ResponseHeader: h.RespHeader(q.reqID, ua.StatusBadNodeIDUnknown)}, 8000)
+			s.mu.Unlock()
+		case <-time.After(60 * time.Second):
+			e.blocked(s.name + ": peer did not receive the requests")
+			return
+		}
+	}
+	probe := &call{k: 3, timeout: 10 * time.Second}
+	probe.ctx, probe.cancel = context.WithCancel(context.Background())
+	calls = append(calls, probe)
+	e.runCall(s, probe)
+	select {
+	case q := <-s.reqs:
+		s.answer(q)
+	case <-time.After(60 * time.Second):
+		e.blocked(s.name + ": peer did not receive the probe")
+		return
+	}
+	bad := ""
+	for _, c := range calls {
+		select {
+		case <-c.done:
+			if c.k < 3 && c.err != ua.StatusBadNodeIDUnknown {
+				bad = fmt.Sprintf("call %d was answered with a ServiceFault and returned %v", c.k, c.err)
+			}
+			if c.k == 3 && (c.err != nil || !c.gotResp) {
+				bad = fmt.Sprintf("the request after three faults was answered at once and returned %v", c.err)
+			}
+		case <-time.After(hang + 10*time.Second):
+			bad = fmt.Sprintf("call %d (answered by the peer) never returned: the dispatcher is stuck", c.k)
+		}
+		if bad != "" {
+			break
+		}
+	}
+	evs := s.ctl.Events()
+	uasc.VerifSetHook(nil)
+	for _, c := range calls {
+		c.cancel()
+	}
+	e.r.Hit("scenario:faults-with-undrained-error-channel")
+	if bad != "" {
+		e.r.Fail(s.name, "", bad+" (error channel of capacity 1, not drained)")
+		return
+	}
+	e.r.Hit("faults-undrained:all-delivered")
+	labels := labelsOf(evs, calls, s.sc.VerifRcvLocker())
+	e.r.Count(s.name+" "+strings.Join(labels, ";"), true)
+	if e.d != nil {
+		e.replay(s.name, 4, labels)
+	}
+}
+
 // renewAfterFailed: a renewal that timed out must not prevent the next one.
 func (e *env) renewAfterFailed() {
 	s := e.open("renewal-after-failed-renewal", 100*time.Millisecond)
@@ -808,9 +960,7 @@ func (e *env) blocked(what string) {
 // hasNew: an unclassified oracle failure or a model disagreement has been recorded — the verdict of the run is
 // settled, the remaining (real-time) scenarios are skipped so that the failing input is reported quickly.
 func (e *env) hasNew() bool {
-	if len(e.r.Disagreements) > 0 {
-		return true
-	}
+	// (a model disagreement alone does not stop the run: the later scenarios may still produce the concrete failing input)
 	for _, f := range e.r.OracleFailures {
 		if f.Sig == "" {
 			return true
@@ -840,6 +990,10 @@ func main() {
 			e.forcedWedge()
 		case strings.HasPrefix(o.Replay, "forced-failed-send"):
 			e.forcedLeak()
+		case strings.HasPrefix(o.Replay, "timeout-after-gate"):
+			e.timeoutAfterLock()
+		case strings.HasPrefix(o.Replay, "faults-with-undrained"):
+			e.faultsUndrained()
 		case strings.HasPrefix(o.Replay, "renewal-after"):
 			e.renewAfterFailed()
 		case strings.HasPrefix(o.Replay, "stalled-peer"):
@@ -857,6 +1011,12 @@ func main() {
 		e.forcedLeak()
 	}
 	if r.InfraError == "" && !e.hasNew() {
+		e.timeoutAfterLock()
+	}
+	if r.InfraError == "" && !e.hasNew() {
+		e.faultsUndrained()
+	}
+	if r.InfraError == "" && !e.hasNew() {
 		e.renewAfterFailed()
 	}
 	if r.InfraError == "" && !e.hasNew() {
@@ -872,7 +1032,7 @@ func main() {
 		}
 	}
 	for _, b := range []string{"label:cSend", "label:cSendFail", "label:cRecv", "label:cTimeout", "label:cCancel", "label:cUnlock", "label:dRecv", "label:dRcvLock", "label:dSend", "label:dWait",
-		"plan:edge", "plan:late", "plan:drop", "plan:cancel", "plan:precancel", "probe:delivered", "outcome:timeout", "outcome:ok", "scenario:forced-wedge", "scenario:forced-failed-send", "failed-send:slot-released", "renewal-after-failure:ok", "stalled-peer:gave-up"} {
+		"plan:edge", "plan:late", "plan:drop", "plan:cancel", "plan:precancel", "probe:delivered", "outcome:timeout", "outcome:ok", "scenario:forced-wedge", "scenario:forced-failed-send", "failed-send:slot-released", "renewal-after-failure:ok", "stalled-peer:gave-up", "timeout-after-lock:gate-reopened", "faults-undrained:all-delivered", "ctx-with-far-deadline"} {
 		if r.Distribution[b] == 0 {
 			r.Unreached = append(r.Unreached, b)
 		}
